@@ -129,4 +129,38 @@ def getCachedSeq {α : Type} (compute : String → Option α) (cap : Nat) : Lru 
     let (r, c') := getCached compute cap c t
     r :: getCachedSeq compute cap c' ts
 
+/-! ### ring instances and configuration updates
+
+  `newShuffleShardHashring` constructs the LRU itself (`lru.NewWithEvict` in the constructor, stored
+  in the `cache` field of the hashring): a ring instance owns its cache, which is empty when the
+  instance is built.  A configuration update builds a NEW instance (same registerer and name, the
+  old one still open) — only the metrics are shared between the two, never the cache. -/
+
+/-- one shuffle shard hashring: what it computes for a tenant (its base ring and configuration),
+    the capacity of its cache and the cache -/
+structure Instance (α : Type) where
+  compute : String → Option α
+  cap : Nat
+  cache : Lru α
+
+/-- `newShuffleShardHashring` -/
+def Instance.new {α : Type} (compute : String → Option α) (cap : Nat) : Instance α := ⟨compute, cap, []⟩
+
+/-- a history of requests on an instance: the answers and the instance afterwards -/
+def Instance.run {α : Type} (i : Instance α) : List String → List (Option α) × Instance α
+  | [] => ([], i)
+  | t :: ts =>
+    let (r, c) := getCached i.compute i.cap i.cache t
+    let (rs, i') := Instance.run { i with cache := c } ts
+    (r :: rs, i')
+
+/-- a configuration update: requests on the old instance, then the replacement is built (whatever
+    the old one has cached) and asked; the old instance is closed in between (closing has no effect on
+    the replacement's cache) -/
+def update {α : Type} (old : Instance α) (histOld : List String) (computeNew : String → Option α) (capNew : Nat)
+    (histNew : List String) : List (Option α) × List (Option α) :=
+  let (a, _) := old.run histOld
+  let (b, _) := (Instance.new computeNew capNew).run histNew
+  (a, b)
+
 end Thanos.ShuffleShard
